@@ -8,7 +8,7 @@ use crate::env::Ans;
 use crate::problems::{base, reflect, warp, Base, Prob, Warp};
 use crate::report::{is_thorough, Report, Violation};
 use crate::run::{mname, run, run_lowlevel, Cfg, Tol};
-use crate::tableau::{extract, orders, residual, Extracted, Forest};
+use crate::tableau::{extract, extract_second_step, orders, residual, Extracted, Forest};
 use crate::util::DD;
 use ivp::prelude::*;
 use serde_json::{json, Value};
@@ -421,6 +421,22 @@ pub fn run_check(replay: Option<Value>) -> i32 {
                 }
                 Err(e) => rep.machinery_errors.push(format!("tableau extraction failed for {} (h sign {}): {}", mname(m), sign, e)),
             }
+            // the same conditions on the tableau applied in a shortened final step, without and
+            // with an XOut answer of the callback in between
+            if m != Method::RADAU {
+                for xout in [false, true] {
+                    match extract_second_step(m, sign, xout) {
+                        Ok(ex) => {
+                            order_conditions(&mut rep, &forest, &ex, if xout { sign * 3.0 } else { sign * 2.0 });
+                            *rep.tags.entry("second-step-tableau".into()).or_insert(0) += 1;
+                        }
+                        Err(e) => rep.violations.push(
+                            Violation::new(format!("secondstep:{}:{}:{}", mname(m), sign, xout), "second-step-extraction", format!("{}: the tableau applied in the shortened second step (XOut answer: {}) cannot be read off: {}", mname(m), xout, e), json!({"key": format!("secondstep:{}:{}:{}", mname(m), sign, xout)}))
+                                .with("method", mname(m)),
+                        ),
+                    }
+                }
+            }
         }
         local_order(&mut rep, m);
     }
@@ -443,7 +459,7 @@ pub fn run_check(replay: Option<Value>) -> i32 {
     rep.dims = json!({"methods": RK_METHODS.iter().map(|m| mname(*m)).collect::<Vec<_>>(), "h_signs": [1, -1], "rooted_trees_up_to_order": 9,
         "conditions": {"RK4": 8, "RK23": 4, "DOPRI5": 17, "DOP853": 200, "RADAU": 17}, "estimator_trees": "all trees of order <= q+1 at atol 1e-13 and 1e-8",
         "cross_validation": "6 nonlinear problems x 4 step sizes x both signs per explicit method", "local_order": "4 problems x both directions x h=2^-1..2^-8", "step_count": "2 problems x 9 tolerances"});
-    for t in ["order-condition", "estimator-trees", "cross-validated", "local-order-ladder", "step-count-law", "radau-real-step-vs-pade"] {
+    for t in ["second-step-tableau", "order-condition", "estimator-trees", "cross-validated", "local-order-ladder", "step-count-law", "radau-real-step-vs-pade"] {
         rep.require(t, 1);
     }
     rep.states_override = Some(forest.trees.len() as u64 * RK_METHODS.len() as u64);
